@@ -22,6 +22,22 @@ CHECKS = {
    "stateless model checking (deviation-bounded DFS over schedules including future-drop actions)",
    "As C05, plus a drop action for every designated reply future at every real suspension point (never polled, waiting for the receive lock, reading from the transport) and for every non-empty victim subset; survivors must complete with their own reply and a follow-up request must succeed.",
    "Same trusted base as C05; a future is only dropped at a real await, never at an artificial yield.", "DESIGN.md §2 E1"),
+ "C01": ("E2", "model_checking",
+   "explicit-state model checking (BFS over reachable configurations; transitions executed by the real code)",
+   "Breadth-first search from the empty instance over every configuration the agent itself can produce; each transition runs the agent's real parse-installed -> compare -> render pipeline for one input (per policy: unmanaged / evaluation failed / every subset of a colliding range alphabet per family) and applies the payloads to a reference Junos in every order; checks exact convergence, read-back by the agent's own reader, idempotence of a second run and equality with the state reached from the empty instance.",
+   "Reference Junos merge/delete semantics and get-config rendering are taken from the Junos XML protocol documentation and the repository's fixtures; evaluation is replaced by its result (E5 covers evaluation).", "DESIGN.md §2 E2"),
+ "C02": ("E2", "model_checking",
+   "explicit-state model checking (BFS; invariant checked after every single payload and every prefix of every order)",
+   "Same exploration as C01; after each single update applied on its own to the fetched state, and after every prefix of every permutation of the update sequence, every touched policy must have only family-restricted accepting terms with explicit route-filters inside the evaluated set and end in reject, and the payload may address nothing outside configuration/policy-options/policy-statement.",
+   "Same trusted base as C01.", "DESIGN.md §2 E2"),
+ "C03": ("E2", "fault_enumeration",
+   "exhaustive enumeration of failed-evaluation subsets over the BFS state space + malformed-annotation sweep",
+   "In every reachable configuration every subset of candidates is marked 'evaluation failed': no payload may name them and their installed form must be unchanged; deletes may only name installed, unmanaged policies. Malformed annotations are driven through the real candidate reader and the real plan.",
+   "Plan level only so far (evaluation and end-to-end parts are added by E5/E6); same trusted base as C01.", "DESIGN.md §2 E2"),
+ "C16": ("E2", "exploration",
+   "bounded-exhaustive enumeration of generated running configurations against an independent selection rule",
+   "Product of comment kinds x active attribute forms x extra/duplicate attributes x all attribute orders x statement bodies x names (incl. XML metacharacters), every single statement and every ordered pair of a representative subset, through the agent's real candidate reader.",
+   "The rpsl crate's parser defines 'parseable expression'.", "DESIGN.md §2 E2 (C16 sweep)"),
 }
 
 NOT_YET = "check not built yet (construction in progress; see DESIGN.md)"
